@@ -1685,3 +1685,37 @@ func ruleORD9(w *World, r *Report) {
 		r.Cond(len(waits) > 0, "ORD-9", "opGate.drain:blocks", w.Pos(fn.Pos()), "drain contains a blocking wait", "opGate.drain never blocks: the snapshot protocols no longer wait for the operations that journaled before BeginSnapshotMode")
 	}
 }
+
+// ---------- ORD-10: a precision change keeps the old arena until the new state is durable ----------
+
+// ruleORD10: VCompress = DB.Compress (rebuilds the index in the new precision; moves the old arena directory away and
+// writes a new one) followed by SaveSnapshot. Vectors live only in the arena files; the snapshot describes which
+// precision they have. Between the two steps the directory holds the OLD snapshot and the NEW arena: a crash there
+// leaves a data directory that cannot be opened (arena precision mismatch). The shape that would make the window
+// safe: nothing under the arena directory of the old precision is renamed or removed before the snapshot of the new
+// state has been written.
+func ruleORD10(w *World, r *Report) {
+	r.Doc("ORD-10", "a precision change does not move or remove the arena files of the old precision before the snapshot that describes the new state is durable (SaveSnapshot precedes the os.Rename/RemoveAll of the arena directory)", 1)
+	vc := w.Func("pkg/engine", "Engine.VCompress")
+	cp := w.Func("pkg/core", "DB.Compress")
+	ss := w.FuncObj("pkg/engine", "Engine.SaveSnapshot")
+	if vc == nil || cp == nil || ss == nil {
+		r.Und("ORD-10", "anchor:VCompress/DB.Compress/SaveSnapshot", "", "anchor lost")
+		return
+	}
+	cfn := w.SSAFunc(cp.Obj)
+	moves := false
+	for _, f := range append([]*ssa.Function{cfn}, closuresOf(cfn)...) {
+		if len(findInstrs(f, func(in ssa.Instruction) bool { return isCallTo(in, "os", "Rename") || isCallTo(in, "os", "RemoveAll") })) > 0 {
+			moves = true
+		}
+	}
+	fn := w.SSAFunc(vc.Obj)
+	if !moves {
+		r.Ok("ORD-10", "Engine.VCompress:arena-kept-until-snapshot-durable", w.Pos(vc.Decl.Pos()), "DB.Compress neither renames nor removes arena files")
+		return
+	}
+	// DB.Compress moves the arena: it must run after the snapshot
+	ok, wit := mustPrecede(fn, callsTo(ss), callsTo(cp.Obj), nil)
+	r.Cond(ok && len(findInstrs(fn, callsTo(ss))) > 0, "ORD-10", "Engine.VCompress:arena-kept-until-snapshot-durable", w.Pos(vc.Decl.Pos()), "the arena of the old precision is touched only after the snapshot of the new state", "Engine.VCompress lets DB.Compress move the old arena directory away and write the new one BEFORE SaveSnapshot records the new precision: a crash between the two leaves the old snapshot next to the new arena, and the next Open fails with 'arena precision mismatch' — the whole data directory is unusable", w.witness(wit)...)
+}
